@@ -1,6 +1,8 @@
 #![allow(dead_code)]
 mod absmap;
+mod convert;
 mod decode;
+mod dispatch;
 mod gradual;
 mod scoregen;
 mod settings;
@@ -18,6 +20,9 @@ fn main() {
         "gradual-record" => gradual::record_main(rest),
         "decode-replay" => decode::main(rest),
         "decode-record" => decode::record_main(rest),
+        "dispatch-replay" => dispatch::main(rest),
+        "convert-replay" => convert::replay_main(rest),
+        "convert-record" => convert::record_main(rest),
         "decode-dump" => {
             let bytes = std::fs::read(&rest[0]).expect("read");
             match rosu_pp::Beatmap::from_bytes(&bytes) {
